@@ -186,11 +186,10 @@ pub fn object_keys(
     // Use proxy trap if it's a proxy - ownKeys trap returns all keys
     if is_proxy(&obj_ref) {
         // Call ownKeys trap and filter for enumerable string keys
-        let Guarded {
-            value: keys_result, ..
-        } = proxy_own_keys(interp, obj_ref)?;
+        // The guard of the keys array stays alive until the result array exists
+        let keys_guarded = proxy_own_keys(interp, obj_ref)?;
         // Filter for enumerable string keys only (not symbols)
-        if let JsValue::Object(keys_arr) = keys_result {
+        if let JsValue::Object(keys_arr) = &keys_guarded.value {
             let keys_ref = keys_arr.borrow();
             if let Some(elements) = keys_ref.array_elements() {
                 let string_keys: Vec<JsValue> = elements
